@@ -221,6 +221,11 @@ func replayFile(scratch, file string) (bool, string) {
 	if err := json.Unmarshal(b, &rf); err != nil {
 		return false, err.Error()
 	}
+	if len(rf.Gors) > 1 {
+		if err := instrumentScratch(scratch); err != nil {
+			return false, "instrumentation failed: " + err.Error()
+		}
+	}
 	if err := writeReplayTest(scratch, rf.PkgDir); err != nil {
 		return false, err.Error()
 	}
@@ -354,66 +359,93 @@ func report(eng *Engine, spec *PropSpec, tier string, seed int, start time.Time,
 			// harness names a finding that is not (or no longer) listed: plain violation
 			isKnown = false
 		}
-		tries := 3
-		if len(vs) < tries {
-			tries = len(vs)
+		// candidates: shortest schedules first (easier to pin natively)
+		sort.SliceStable(vs, func(i, j int) bool { return len(vs[i].Sched) < len(vs[j].Sched) })
+		// Sequential counterexamples are deterministic: a few candidates suffice.
+		// Concurrent ones are replayed under soft schedule pinning, which does not
+		// always reproduce the interleaving, so more candidates are tried, round
+		// robin, within a time budget.
+		concurrent := len(vs[0].Gors) > 1
+		maxCands, budget := 3, 120*time.Second
+		if concurrent {
+			maxCands = 24
+		}
+		if len(vs) < maxCands {
+			maxCands = len(vs)
+		}
+		cands := make([]Violation, 0, maxCands)
+		for i := 0; i < maxCands; i++ {
+			if i < maxCands/2 || !concurrent {
+				cands = append(cands, vs[i])
+			} else {
+				cands = append(cands, vs[i*len(vs)/maxCands]) // and a spread over the rest
+			}
 		}
 		ok := false
 		var okFile string
 		var lastRaw string
-		for i := 0; i < tries && !ok; i++ {
-			v := vs[i*len(vs)/tries]
-			rf := buildReplay(spec.ID, v.Harness, pkgDir, v.Label, v.Msg, v.Pos, v.Inputs, v.Model, v.Choices, v.Sched, eng.cfg.Params)
+		os.MkdirAll(replayDir, 0o755)
+		tag := "new"
+		if isKnown {
+			tag = "known"
+		}
+		files := make([]string, len(cands))
+		rfs := make([]*ReplayFile, len(cands))
+		for i, v := range cands {
+			rf := buildReplay(spec.ID, v.Harness, pkgDir, v.Label, v.Msg, v.Pos, v.Inputs, v.Model, v.Choices, v.Sched, eng.cfgFor(v.Harness).Params)
 			rf.Gors = v.Gors
-			nonEnv := 0
-			for _, g := range v.Gors {
-				if !g.Env {
-					nonEnv++
-				}
-			}
-			pinned := len(v.Gors) > 1
-			if pinned && !noReplay && !instrumented {
+			rfs[i] = rf
+			files[i] = filepath.Join(replayDir, fmt.Sprintf("%s_%s_%s_%s_%d.json", spec.ID, k.h, sanitize(k.label), tag, i))
+			b, _ := json.MarshalIndent(rf, "", " ")
+			os.WriteFile(files[i], b, 0o644)
+		}
+		if !noReplay {
+			if concurrent && !instrumented {
 				// schedule-pinned replay: instrument the scratch copy once
 				if err := instrumentScratch(scratch); err != nil {
 					fmt.Fprintln(os.Stderr, "gosym: instrumentation failed, falling back to unpinned replay:", err)
 				}
 				instrumented = true
 			}
-			os.MkdirAll(replayDir, 0o755)
-			tag := "new"
-			if isKnown {
-				tag = "known"
-			}
-			file := filepath.Join(replayDir, fmt.Sprintf("%s_%s_%s_%s_%d.json", spec.ID, k.h, sanitize(k.label), tag, i))
-			b, _ := json.MarshalIndent(rf, "", " ")
-			os.WriteFile(file, b, 0o644)
-			if noReplay {
-				continue
-			}
 			if !prepared[pkgDir] {
 				if err := writeReplayTest(scratch, pkgDir); err != nil {
 					lastRaw = err.Error()
-					break
-				}
-				prepared[pkgDir] = true
-			}
-			attempts := 3
-			if len(v.Sched) > 0 {
-				attempts = 6
-			}
-			for a := 0; a < attempts && !ok; a++ {
-				ro := runReplayOnce(scratch, rf, file, 60*time.Second)
-				lastRaw = ro.Raw
-				if ro.confirms(v.Label) {
-					ok = true
-					okFile = file
-				}
-				if !ro.BuildOK {
-					break
+				} else {
+					prepared[pkgDir] = true
 				}
 			}
-			if !ok {
-				os.Rename(file, filepath.Join(replayDir, "unconfirmed_"+filepath.Base(file)))
+			t0 := time.Now()
+			rounds := 2
+			if concurrent {
+				rounds = 4
+			}
+		replayLoop:
+			for r := 0; r < rounds && prepared[pkgDir]; r++ {
+				for i := range cands {
+					if time.Since(t0) > budget {
+						break replayLoop
+					}
+					ro := runReplayOnce(scratch, rfs[i], files[i], 60*time.Second)
+					lastRaw = ro.Raw
+					if ro.confirms(cands[i].Label) {
+						ok = true
+						okFile = files[i]
+						break replayLoop
+					}
+					if !ro.BuildOK {
+						break replayLoop
+					}
+				}
+			}
+		}
+		for i, f := range files {
+			if f == okFile {
+				continue
+			}
+			if i < 3 {
+				os.Rename(f, filepath.Join(replayDir, "unconfirmed_"+filepath.Base(f)))
+			} else {
+				os.Remove(f)
 			}
 		}
 		sum := map[string]interface{}{"harness": k.h, "label": k.label, "paths": len(vs), "pos": vs[0].Pos, "msg": vs[0].Msg, "confirmed_natively": ok}
@@ -524,7 +556,7 @@ func report(eng *Engine, spec *PropSpec, tier string, seed int, start time.Time,
 		"paths_by_status":               pathsByStatus,
 		"functions_encoded":             fns,
 		"bounds":                        bound,
-		"engine_config":                 map[string]interface{}{"preemption_bound": eng.cfg.Preempt, "unwind": eng.cfg.Unwind, "alloc_cap": eng.cfg.AllocCap, "map_perm_max": eng.cfg.MapPermMax, "map_order_budget": eng.cfg.MapOrderBudget, "params": eng.cfg.Params, "query_timeout_ms": eng.cfg.TimeoutMs},
+		"engine_config":                 map[string]interface{}{"preemption_bound": eng.cfg.Preempt, "delay_bound": eng.cfg.DelayBound, "unwind": eng.cfg.Unwind, "alloc_cap": eng.cfg.AllocCap, "map_perm_max": eng.cfg.MapPermMax, "map_order_budget": eng.cfg.MapOrderBudget, "params": eng.cfg.Params, "query_timeout_ms": eng.cfg.TimeoutMs},
 		"max_preemptions_used":          maxPre,
 		"reach_witnesses":               reach,
 		"solver":                        solverStats,
@@ -601,7 +633,7 @@ func validateSamples(eng *Engine, spec *PropSpec, scratch, tier string) (int, in
 			}
 			prepared[pkgDir] = true
 		}
-		rf := buildReplay(spec.ID, s.Harness, pkgDir, "", "", "", s.Inputs, s.Model, s.Choices, nil, eng.cfg.Params)
+		rf := buildReplay(spec.ID, s.Harness, pkgDir, "", "", "", s.Inputs, s.Model, s.Choices, nil, eng.cfgFor(s.Harness).Params)
 		file := filepath.Join(dir, fmt.Sprintf("s%d.json", i))
 		b, _ := json.Marshal(rf)
 		os.WriteFile(file, b, 0o644)
